@@ -78,3 +78,13 @@ pub fn search() -> Value {
     }
     json!({"violates": false, "evaluated": n})
 }
+
+/// pattern-new <p1> <p2> …  (`<empty>` stands for the empty pattern): PatternSet::new must refuse the list iff one pattern is empty
+pub fn new_list(a: &[String]) -> Value {
+    let pats: Vec<&str> = a.iter().map(|s| if s == "<empty>" { "" } else { s.as_str() }).collect();
+    let want_err = pats.iter().any(|p| p.is_empty());
+    let got_err = s3s_policy::pattern::PatternSet::new(pats.iter().copied()).is_err();
+    let mut args = vec!["pattern-new".to_owned()]; args.extend(a.iter().cloned());
+    json!({"violates": want_err != got_err, "input": {"patterns": pats}, "expected": if want_err { "refused (a pattern is empty)" } else { "accepted" },
+           "observed": if got_err { "refused" } else { "accepted" }, "replay_args": args})
+}
